@@ -1,2 +1,3 @@
+@property
 def spec(self):
     return ((obs, {mname: mon for mname, mon in self.monitors_[oname].items()}) for oname, obs in self.observed_.items() if oname in self.monitors_)
